@@ -72,6 +72,7 @@ def run(ctx):
     x_scenarios.item_put_fidelity(ctx, ctx.n(120, 3000))
     x_scenarios.move_matrix(ctx)
     x_scenarios.predefined_collections(ctx)
+    x_scenarios.truncated_uploads(ctx)
 
 
 def replay(ctx, path):
